@@ -314,3 +314,10 @@ pub fn block_on_ready<F: std::future::Future>(f: F) -> F::Output {
         assert!(polls < 3, "in-memory async I/O returned Pending");
     }
 }
+
+// ------------------------------------------------------------ Arc free ----
+/// Stand-in for `Arc::drop_slow` (the "last reference gone" path: drop the value,
+/// release the allocation): leaks instead. For harnesses whose claim does not
+/// depend on when shared state is freed, this keeps the drop glue of everything
+/// behind an `Arc` (sockets, channels, B-trees) out of the model.
+pub unsafe fn arc_drop_slow_stub<T: ?Sized, A: std::alloc::Allocator>(_this: &mut std::sync::Arc<T, A>) {}
